@@ -35,8 +35,15 @@ def run(model, tier="quick"):
     formula_check(res, model, "AaveV3CoreLib.safe_div_zero", R.REF_SAFE_DIV, "a/b, 0 when b is 0")
     formula_check(res, model, "AaveV3Market.total_apy", R.REF_TOTAL_APY, "net apy = (supply apy*supplies - borrow apy*debts)/(supplies - debts)",
                   opaque=views)
+    vop = ["get_supply", "get_borrow", "supplies_value", "borrows_value", "get_apy", "supplies"]
+    effects_check(res, model, "AaveV3Market.supplies", R.REF_SUPPLIES_VIEW, "supplies view: every supply, filled once per cache epoch", ["set"], opaque=vop)
+    effects_check(res, model, "AaveV3Market.borrows", R.REF_BORROWS_VIEW, "borrows view: every debt, filled once per cache epoch", ["set"], opaque=vop)
+    effects_check(res, model, "AaveV3Market.supply_apy", R.REF_SUPPLY_APY, "supply apy: each supply's own liquidity rate, value-weighted", [], opaque=vop)
+    effects_check(res, model, "AaveV3Market.borrow_apy", R.REF_BORROW_APY, "borrow apy: each debt's own variable borrow rate, value-weighted", [], opaque=vop)
     effects_check(res, model, "AaveV3Market.set_market_status", R.REF_AAVE_SET_STATUS,
                   "new bar: this bar's row, prices stored, all five caches emptied", ["set_market_status", "reset"])
+    from .base_refs import base_helpers
+    res.units["memo_container_methods"] = base_helpers(res, model, ("cache",))   # the typestate rule trusts reset/set/empty
     res.assumptions = [
         "the only memo caches are the DictCache-typed fields assigned in AaveV3Market.__init__ (discovered, not listed)",
         "a supply whose collateral flag is False does not contribute to the collateral view (collateral-conditional reset idiom)",
